@@ -310,10 +310,11 @@ package url
 //@   ensures result != nil ==> errCause(result) == nil
 //@   ensures arr(u.validationErrors) == old(arr(u.validationErrors)) || fresh(u.validationErrors)
 //@   ensures (result != nil) == (failure || p.opts.failOnValidationError)   [C15]
-//@   ensures result != nil ==> fresh(result) && isVE(result) && errType(result) == errorType && errFailure(result) == failure   [C15]
+//@   ensures result != nil ==> fresh(result) && isVE(result) && errType(result) == errorType && errFailure(result) == (failure || p.opts.failOnValidationError)   [C15]
+//@   ensures result != nil ==> errFailure(result)   [C15 returned-errors-are-marked-as-failures]
 //@   ensures !p.opts.reportValidationErrors ==> u.validationErrors == old(u.validationErrors)   [C15]
 //@   ensures p.opts.reportValidationErrors ==> len(u.validationErrors) == old(len(u.validationErrors)) + 1   [C15]
-//@   ensures (!failure && old(allNonFatal(u))) ==> allNonFatal(u)   [C15]
+//@   ensures (!failure && !p.opts.failOnValidationError && old(allNonFatal(u))) ==> allNonFatal(u)   [C15]
 
 //@ func (*parser).handleErrorWithDescription
 //@   requires p != nil && u != nil
@@ -321,10 +322,11 @@ package url
 //@   ensures result != nil ==> errCause(result) == nil
 //@   ensures arr(u.validationErrors) == old(arr(u.validationErrors)) || fresh(u.validationErrors)
 //@   ensures (result != nil) == (failure || p.opts.failOnValidationError)   [C15]
-//@   ensures result != nil ==> fresh(result) && isVE(result) && errType(result) == errorType && errFailure(result) == failure   [C15]
+//@   ensures result != nil ==> fresh(result) && isVE(result) && errType(result) == errorType && errFailure(result) == (failure || p.opts.failOnValidationError)   [C15]
+//@   ensures result != nil ==> errFailure(result)   [C15 returned-errors-are-marked-as-failures]
 //@   ensures !p.opts.reportValidationErrors ==> u.validationErrors == old(u.validationErrors)   [C15]
 //@   ensures p.opts.reportValidationErrors ==> len(u.validationErrors) == old(len(u.validationErrors)) + 1   [C15]
-//@   ensures (!failure && old(allNonFatal(u))) ==> allNonFatal(u)   [C15]
+//@   ensures (!failure && !p.opts.failOnValidationError && old(allNonFatal(u))) ==> allNonFatal(u)   [C15]
 
 //@ func (*parser).handleWrappedError
 //@   requires p != nil && u != nil
@@ -332,10 +334,11 @@ package url
 //@   ensures result != nil ==> errCause(result) == cause
 //@   ensures arr(u.validationErrors) == old(arr(u.validationErrors)) || fresh(u.validationErrors)
 //@   ensures (result != nil) == (failure || p.opts.failOnValidationError)   [C15]
-//@   ensures result != nil ==> fresh(result) && isVE(result) && errType(result) == errorType && errFailure(result) == failure   [C15]
+//@   ensures result != nil ==> fresh(result) && isVE(result) && errType(result) == errorType && errFailure(result) == (failure || p.opts.failOnValidationError)   [C15]
+//@   ensures result != nil ==> errFailure(result)   [C15 returned-errors-are-marked-as-failures]
 //@   ensures !p.opts.reportValidationErrors ==> u.validationErrors == old(u.validationErrors)   [C15]
 //@   ensures p.opts.reportValidationErrors ==> len(u.validationErrors) == old(len(u.validationErrors)) + 1   [C15]
-//@   ensures (!failure && old(allNonFatal(u))) ==> allNonFatal(u)   [C15]
+//@   ensures (!failure && !p.opts.failOnValidationError && old(allNonFatal(u))) ==> allNonFatal(u)   [C15]
 
 // ---------------------------------------------------------------------------------------------------------------
 // inputstring.go: the code-point cursor. cur(i) is its representation invariant (/verif/spec/url.wf.spec)
@@ -533,6 +536,8 @@ package url
 //@ func (*parser).parseHost
 //@   requires okOpts(p) && okOpts(parser) && u != nil
 //@   modifies u.validationErrors, u.validationErrors[..], u.isIPv4, u.isIPv6
+//@   ensures (result1 == nil && old(allNonFatal(u))) ==> allNonFatal(u)   [C15 recorded-entries-on-a-parsed-url-are-non-fatal]
+//@   ensures result1 != nil ==> (isVE(result1) && errFailure(result1) && errType(result1) != "")   [C15 returned-errors-are-marked-as-failures]
 //@   ensures arr(u.validationErrors) == old(arr(u.validationErrors)) || fresh(u.validationErrors)
 //@   ensures (p.opts.preParseHostFunc == nil && input != "" && input[0] == '[' && result1 == nil) ==> (len(input) >= 2 && input[len(input) - 1] == ']')   [C08 single-bracket-pair]
 //@   ensures (p.opts.preParseHostFunc == nil && input != "" && input[0] == '[' && result1 == nil) ==>
@@ -545,6 +550,7 @@ package url
 //@            && input[0] != '[' && result1 == nil && !specEndsInANumber(specHostASCII(input))) ==> result0 == specHostASCII(input)   [C09 domain-host-as-a-function-of-the-text]
 //@   ensures (isNotSpecial && p.opts.preParseHostFunc == nil && input != "" && input[0] != '[') ==> !u.isIPv4 || old(u.isIPv4)   [C07 non-special-hosts-never-reinterpreted]
 //@   loop 1 modifies u.validationErrors, u.validationErrors[..]
+//@   loop 1 invariant old(allNonFatal(u)) ==> allNonFatal(u)
 //@   loop 1 invariant arr(u.validationErrors) == old(arr(u.validationErrors)) || fresh(u.validationErrors)
 //@   loop 1 invariant arr(u.validationErrors) == pre(arr(u.validationErrors)) || freshL(u.validationErrors)
 //@   loop 1 invariant !p.opts.laxHostParsing ==> (forall k int :: 0 <= k && k < $i ==> !specForbiddenDomain(asciiDomain[k]))
@@ -606,6 +612,8 @@ package url
 //@   ensures url != nil ==> wf(url)   [C02,C04,C19]
 //@   ensures url != nil ==> (result0 == url || result0 == nil)
 //@   ensures (url == nil && result1 == nil) ==> allFresh(result0)   [C13,C14]
+//@   ensures result1 != nil ==> (isVE(result1) && errFailure(result1) && errType(result1) != "")   [C15 returned-errors-are-marked-as-failures]
+//@   ensures (url == nil && result1 == nil) ==> allNonFatal(result0)   [C15 recorded-entries-on-a-parsed-url-are-non-fatal]
 //@   ensures url != nil ==> keptArrays(url)
 //@   ensures (url != nil && old(shapeP(url))) ==> shapeP(url)   [C04,C05 shape-preserved-by-setters]
 //@   ensures (url != nil && stateOverride == StateFragment) ==> sameButFragment(url)   [C05]
@@ -863,6 +871,7 @@ package url
 //@            && url.path.p == prev(url.path.p) && url.path.p[0] == prev(url.path.p[0]) && url.path.opaque == prev(url.path.opaque))   [C01 opaque-path-ends-at-the-first-delimiter]
 //@   loop 1 step input.pointer == prev(input.pointer) + 2 ==> (inC(url)[input.pointer] == 0x2F && inC(url)[input.pointer - 1] != 0x23 && inC(url)[input.pointer - 1] != 0x3F)   [C01 two-code-points-consumed-only-before-a-slash]
 //@   loop 1 invariant (stateOverride == StatePathStart && state == StatePathStart) ==> len(url.path.p) == 0
+//@   loop 1 invariant old(url) == nil ==> allNonFatal(url)
 //@   loop 1 invariant (old(url) == nil ? (old(baseUrl == nil || collapsedOK(baseUrl)) && (baseUrl == nil || shapeP(baseUrl))) : old(collapsedOK(url))) ==> collapsedOK(url)
 //@   loop 1 decreases specRank(state), input.length - input.pointer
 //@   loop 2 modifies url.username, url.password, bb.pointer, bb.eof
@@ -1080,6 +1089,8 @@ package url
 //@   noreads url.parserOptions.reportValidationErrors, url.parserOptions.failOnValidationError, url.Url.validationErrors except (*parser).handleError, (*parser).handleErrorWithDescription, (*parser).handleWrappedError   [C15 diagnostics-options-read-only-by-the-error-handlers]
 //@   requires wf(u)
 //@   ensures result1 == nil ==> (result0 != nil && fresh(result0) && wf(result0) && allFresh(result0))   [C02,C13,C14]
+//@   ensures result1 != nil ==> (isVE(result1) && errFailure(result1) && errType(result1) != "")   [C15 returned-errors-are-marked-as-failures]
+//@   ensures result1 == nil ==> allNonFatal(result0)   [C15 recorded-entries-on-a-parsed-url-are-non-fatal]
 //@   ensures result1 == nil ==> result0.parser == u.parser   [C06,C16 result-carries-the-base-parser]
 //@   ensures (result1 == nil && collapsedOK(u) && shapeP(u)) ==> collapsedOK(result0)   [C16 collapse-leaves-no-empty-non-final-segment]
 //@   ensures (result1 == nil && shapeP(u)) ==> shapeP(result0)   [C04 parse-establishes-shape]
@@ -1101,6 +1112,8 @@ package url
 //@   noreads url.parserOptions.reportValidationErrors, url.parserOptions.failOnValidationError, url.Url.validationErrors except (*parser).handleError, (*parser).handleErrorWithDescription, (*parser).handleWrappedError   [C15 diagnostics-options-read-only-by-the-error-handlers]
 //@   requires okOpts(p)
 //@   ensures result1 == nil ==> (result0 != nil && fresh(result0) && wf(result0) && allFresh(result0) && result0.parser == p)   [C02,C13,C14]
+//@   ensures result1 != nil ==> (isVE(result1) && errFailure(result1) && errType(result1) != "")   [C15 returned-errors-are-marked-as-failures]
+//@   ensures result1 == nil ==> allNonFatal(result0)   [C15 recorded-entries-on-a-parsed-url-are-non-fatal]
 //@   ensures result1 == nil ==> shapeP(result0)   [C04 parse-establishes-shape]
 //@   ensures result1 == nil ==> collapsedOK(result0)   [C16 collapse-leaves-no-empty-non-final-segment]
 //@   ensures result1 == nil ==> result0.inputUrl == old(cleanedP(rawUrl))   [C01 input-cleaning]
@@ -1117,6 +1130,8 @@ package url
 //@   noreads url.parserOptions.reportValidationErrors, url.parserOptions.failOnValidationError, url.Url.validationErrors except (*parser).handleError, (*parser).handleErrorWithDescription, (*parser).handleWrappedError   [C15 diagnostics-options-read-only-by-the-error-handlers]
 //@   requires okOpts(p)
 //@   ensures result1 == nil ==> (result0 != nil && fresh(result0) && wf(result0) && allFresh(result0))   [C02,C13,C14]
+//@   ensures result1 != nil ==> (isVE(result1) && errFailure(result1) && errType(result1) != "")   [C15 returned-errors-are-marked-as-failures]
+//@   ensures result1 == nil ==> allNonFatal(result0)   [C15 recorded-entries-on-a-parsed-url-are-non-fatal]
 //@   ensures result1 == nil ==> result0.parser == p   [C06,C16 base-and-reference-parsed-by-the-same-parser]
 //@   ensures result1 == nil ==> shapeP(result0)   [C04 parse-establishes-shape]
 //@   ensures result1 == nil ==> collapsedOK(result0)   [C16 collapse-leaves-no-empty-non-final-segment]
@@ -1308,14 +1323,18 @@ package url
 //@ func (*parser).parseOpaqueHost
 //@   requires p != nil && u != nil
 //@   modifies u.validationErrors, u.validationErrors[..]
+//@   ensures (result1 == nil && old(allNonFatal(u))) ==> allNonFatal(u)   [C15 recorded-entries-on-a-parsed-url-are-non-fatal]
+//@   ensures result1 != nil ==> (isVE(result1) && errFailure(result1) && errType(result1) != "")   [C15 returned-errors-are-marked-as-failures]
 //@   ensures arr(u.validationErrors) == old(arr(u.validationErrors)) || fresh(u.validationErrors)
 //@   loop 1 modifies u.validationErrors, u.validationErrors[..]
+//@   loop 1 invariant old(allNonFatal(u)) ==> allNonFatal(u)
 //@   loop 1 invariant arr(u.validationErrors) == old(arr(u.validationErrors)) || fresh(u.validationErrors)
 //@   loop 1 invariant arr(u.validationErrors) == pre(arr(u.validationErrors)) || freshL(u.validationErrors)
 
 //@ func (*parser).endsInANumber
 //@   requires p != nil && u != nil
 //@   modifies u.validationErrors, u.validationErrors[..]
+//@   ensures old(allNonFatal(u)) ==> allNonFatal(u)   [C15]
 //@   ensures result == specEndsInANumber(input)   [C07]
 //@   ensures u.validationErrors == old(u.validationErrors)   [C15]
 //@   ensures forall k int :: 0 <= k && k < len(u.validationErrors) ==> u.validationErrors[k] == old(u.validationErrors[k])   [C15]
@@ -1323,6 +1342,7 @@ package url
 //@ func (*parser).parseIPv4Number
 //@   requires p != nil && u != nil
 //@   modifies u.validationErrors, u.validationErrors[..]
+//@   ensures (err == nil && old(allNonFatal(u))) ==> allNonFatal(u)   [C15]
 //@   ensures arr(u.validationErrors) == old(arr(u.validationErrors)) || fresh(u.validationErrors)
 //@   ensures input != "" ==> u.validationErrors == old(u.validationErrors)   [C15]
 //@   ensures input != "" ==> (forall k int :: 0 <= k && k < len(u.validationErrors) ==> u.validationErrors[k] == old(u.validationErrors[k]))   [C15]
@@ -1342,21 +1362,26 @@ package url
 //@ func (*parser).parseIPv4
 //@   requires p != nil && u != nil
 //@   modifies u.validationErrors, u.validationErrors[..], u.isIPv4
+//@   ensures (result1 == nil && old(allNonFatal(u))) ==> allNonFatal(u)   [C15 recorded-entries-on-a-parsed-url-are-non-fatal]
+//@   ensures result1 != nil ==> (isVE(result1) && errFailure(result1) && errType(result1) != "")   [C15 returned-errors-are-marked-as-failures]
 //@   ensures arr(u.validationErrors) == old(arr(u.validationErrors)) || fresh(u.validationErrors)
 //@   ensures result1 == nil ==> (specPartsN(input) <= 4 && u.isIPv4)   [C07]
 //@   ensures result1 == nil ==> (forall k int :: 0 <= k && k < specPartsN(input) ==> specNumSyntax(specSplitPart(input, ".", k)))   [C07]
 //@   ensures result1 == nil ==> specIPv4RangeOK(input)   [C07]
 //@   ensures result1 == nil ==> result0 == specIPv4Ser(specIPv4Value(input))   [C07]
 //@   loop 1 modifies u.validationErrors, u.validationErrors[..]
+//@   loop 1 invariant old(allNonFatal(u)) ==> allNonFatal(u)
 //@   loop 1 invariant len(numbers) == $i && (numbers == nil || freshL(numbers)) && len(parts) == specPartsN(input) && len(parts) <= 4 && len(parts) >= 1
 //@   loop 1 invariant forall k int :: 0 <= k && k < len(parts) ==> parts[k] == specSplitPart(input, ".", k)
 //@   loop 1 invariant forall k int :: 0 <= k && k < $i ==> (specNumSyntax(parts[k]) && numbers[k] >= 0 && numbers[k] == specNumVal(parts[k]))
 //@   loop 1 invariant arr(u.validationErrors) == old(arr(u.validationErrors)) || fresh(u.validationErrors)
 //@   loop 1 invariant arr(u.validationErrors) == pre(arr(u.validationErrors)) || freshL(u.validationErrors)
 //@   loop 2 modifies u.validationErrors, u.validationErrors[..]
+//@   loop 2 invariant old(allNonFatal(u)) ==> allNonFatal(u)
 //@   loop 2 invariant arr(u.validationErrors) == old(arr(u.validationErrors)) || fresh(u.validationErrors)
 //@   loop 2 invariant arr(u.validationErrors) == pre(arr(u.validationErrors)) || freshL(u.validationErrors)
 //@   loop 3 modifies u.validationErrors, u.validationErrors[..]
+//@   loop 3 invariant old(allNonFatal(u)) ==> allNonFatal(u)
 //@   loop 3 invariant arr(u.validationErrors) == old(arr(u.validationErrors)) || fresh(u.validationErrors)
 //@   loop 3 invariant arr(u.validationErrors) == pre(arr(u.validationErrors)) || freshL(u.validationErrors)
 //@   loop 3 invariant forall k int :: 0 <= k && k < $i ==> numbers[k] <= 255
@@ -1371,10 +1396,13 @@ package url
 //@ func (*parser).parseIPv6
 //@   requires p != nil && u != nil && cur(input) && !input.eof && input.pointer == -1 && off(input.runes) == 0
 //@   modifies u.validationErrors, u.validationErrors[..], u.isIPv6, input.pointer, input.eof
+//@   ensures (result1 == nil && old(allNonFatal(u))) ==> allNonFatal(u)   [C15 recorded-entries-on-a-parsed-url-are-non-fatal]
+//@   ensures result1 != nil ==> (isVE(result1) && errFailure(result1) && errType(result1) != "")   [C15 returned-errors-are-marked-as-failures]
 //@   ensures arr(u.validationErrors) == old(arr(u.validationErrors)) || fresh(u.validationErrors)
 //@   ensures result1 == nil ==> u.isIPv6   [C08]
 //@   ensures result1 == nil ==> (exists a intarr, c int, l int :: specIsCompressL(a, c, l) && result0 == "[" + specIPv6Acc(a, c, 0, false, "") + "]")   [C08 result-is-canonical-text]
 //@   loop 1 modifies u.validationErrors, u.validationErrors[..], input.pointer, input.eof, address[..]
+//@   loop 1 invariant old(allNonFatal(u)) ==> allNonFatal(u)
 //@   loop 1 invariant cur(input) && address != nil && fresh(address) && 0 <= pieceIdx && pieceIdx <= 8 && -1 <= compress && compress <= pieceIdx   [C08]
 //@   loop 1 invariant input.pointer >= 0 && (input.eof || c == input.runes[input.pointer]) && (input.eof ==> c == 0xFFFD)
 //@   loop 1 invariant arr(u.validationErrors) == old(arr(u.validationErrors)) || fresh(u.validationErrors)
@@ -1394,6 +1422,7 @@ package url
 //@   loop 2 invariant (input.eof || c == input.runes[input.pointer]) && (input.eof ==> c == 0xFFFD)
 //@   loop 2 decreases 4 - length
 //@   loop 3 modifies u.validationErrors, u.validationErrors[..], input.pointer, input.eof, address[..]
+//@   loop 3 invariant old(allNonFatal(u)) ==> allNonFatal(u)
 //@   loop 3 invariant cur(input) && address != nil && fresh(address) && 0 <= numbersSeen && numbersSeen <= 4 && 0 <= pieceIdx && pieceIdx <= 8
 //@   loop 3 invariant (numbersSeen < 2 ==> pieceIdx <= 6) && (numbersSeen < 4 ==> pieceIdx <= 7) && -1 <= compress && compress <= pieceIdx
 //@   loop 3 invariant input.pointer >= 0 && (input.eof || c == input.runes[input.pointer]) && (input.eof ==> c == 0xFFFD)
@@ -1407,6 +1436,7 @@ package url
 //@            && (forall j int :: (0 <= j && j < 8 && j != prev(pieceIdx)) ==> address[j] == prev(address[j])))   [C08 ipv4-tail-two-numbers-per-piece]
 //@   loop 3 decreases input.length - input.pointer
 //@   loop 4 modifies u.validationErrors, u.validationErrors[..], input.pointer, input.eof
+//@   loop 4 invariant old(allNonFatal(u)) ==> allNonFatal(u)
 //@   loop 4 invariant cur(input) && -1 <= ipv4Piece && ipv4Piece <= 255 && (ipv4Piece >= 0 || (specIsDigit(c) && !input.eof))   [C08]
 //@   loop 4 invariant input.pointer >= pre(input.pointer) && (ipv4Piece >= 0 ==> input.pointer > pre(input.pointer))
 //@   loop 4 invariant input.pointer >= 0 && (input.eof || c == input.runes[input.pointer]) && (input.eof ==> c == 0xFFFD)
